@@ -52,7 +52,7 @@ extern void verif_set_ienv(int ispec, int_t v);
 typedef struct {
     long id; char driver[16]; int stype_nr;
     long m, n, nnz, nrhs, nprocs; int colperm; long ienv[8];
-    double thresh; int usepr, symmetric, fact, trans; long ldb, ldx;
+    double thresh; int usepr, symmetric, fact, trans; long ldb, ldx, createfail;
     long pseed; double pprob; long pmaxus;      /* perturbation */
     int trace, dump_lu, destroy; unsigned timeout;
     long *colptr, *rowind, *permc, *permr; double *vals, *rhs, *rhs2; int trans2; void *permc_used; long *etree_out;
@@ -367,6 +367,7 @@ int main(void)
         else if (!strcmp(key, "symmetric")) c.symmetric = atoi(rest);
         else if (!strcmp(key, "ldb")) c.ldb = atol(rest);
         else if (!strcmp(key, "ldx")) c.ldx = atol(rest);
+        else if (!strcmp(key, "createfail")) c.createfail = atol(rest);
         else if (!strcmp(key, "fact")) c.fact = atoi(rest);
         else if (!strcmp(key, "trans")) c.trans = atoi(rest);
         else if (!strcmp(key, "perturb")) sscanf(rest, "%ld %lf %ld", &c.pseed, &c.pprob, &c.pmaxus);
